@@ -52,6 +52,9 @@ def valueResolve (name : Bytes) : Bytes :=
   else if name = symBytes "x.1e" then symBytes "7"
   else if name = symBytes "a#1e" then symBytes "9"
   else if name = symBytes "rate" then symBytes "1.5"
+  -- terminating chains: the answer names another variable (the Go loop re-scans the substituted text)
+  else if name = symBytes "ch" then symBytes "$x"
+  else if name = symBytes "ch2" then symBytes "$ch"
   else []
 
 def optSym : Option Op → String
@@ -99,7 +102,7 @@ def step (st : St) (line : String) : St × String :=
   | ["x", k, z, h] =>
     match hexBytes? h, k.toNat?, EvalFixed.cfg? (k.toNat?.getD 0) (z == "1") with
     | some s, some _, some c =>
-      (st, match EvalFixed.evaluate c fixedOps fixedFns (some valueResolve) (s.length + 1) s with
+      (st, match EvalFixed.evaluate c fixedOps fixedFns (some valueResolve) (driverBudget s + 1) s with
         | .ok (.num raw) => "n " ++ toString raw
         | .ok (.bool b) => if b then "b true" else "b false"
         | .ok (.str t) => "s " ++ bytesHex t
